@@ -87,11 +87,11 @@ def enterScriptP (p : Prog) (gas : Nat) (s : VmState) (label : UInt32) (arity : 
     if s.stack.count < arity then failP s .missingArgument else
     let fr : Frame := { src := pos, dst := p.bytecode.size - 1, stackOffset := s.stack.count - arity, closure := closure }
     if s.frames.length + 1 > s.frameCap then failP s .callStackOverflow else
-    if s.frames.length + 2 > s.frameCap then failP { s with frames := s.frames ++ [fr] } .callStackOverflow else
+    if s.frames.length + 2 > s.frameCap then (s, .error ⟨.callStackOverflow, 0, s.frames ++ [fr]⟩) else
     match exec p gas (.loop pos) { s with frames := s.frames ++ [fr, fr] } with
     | (s', .ok _) =>
-      ({ s' with frames := s'.frames.dropLast, stack := s'.stack.pop.1 }, .ok (some s'.stack.pop.2))
-    | (s', .error e) => (s', .error e)
+      ({ s' with frames := s'.frames.take s.frames.length, stack := s'.stack.pop.1 }, .ok (some s'.stack.pop.2))
+    | (s', .error e) => ({ s' with frames := s'.frames.take s.frames.length }, .error e)
 
 theorem exec_callP (p : Prog) (gas : Nat) (f : Val) (s : VmState) :
     exec p (gas+1) (.call f) s =
